@@ -405,6 +405,7 @@ let () =
   match Array.to_list Sys.argv with
   | [ _; "enum"; depth; reduced; hf; ef ] -> enum (int_of_string depth) (reduced = "1") hf ef
   | [ _; "h2check" ] -> H2check.run_h2check ()
+  | [ _; "sigtransitions" ] -> List.iter print_endline (H2check.model_transitions ())
   | [ _; "walk"; seed; count; maxlen ] -> walk (int_of_string seed) (int_of_string count) (int_of_string maxlen)
   | [ _; "run" ] -> run_stdin ()
   | [ _; "gen"; seed; count; maxlen; hf; ef ] ->
